@@ -78,12 +78,30 @@ impl Drop for NestingGuard {
 #[derive(Debug, Clone)]
 pub struct AtomCache {
     atoms: HashMap<u8, Atom>,
+    /// Entries created by distribution headers, keyed by
+    /// `SegmentIndex * 256 + InternalSegmentIndex`.
+    slots: HashMap<u16, Atom>,
+    /// Atoms referenced by the distribution header of the message being decoded,
+    /// in header order: `ATOM_CACHE_REF k` is the k-th of these.
+    header_refs: Vec<Atom>,
 }
 
 impl AtomCache {
     pub fn new() -> Self {
         Self {
             atoms: HashMap::with_capacity(ATOM_CACHE_SIZE),
+            slots: HashMap::new(),
+            header_refs: Vec::new(),
+        }
+    }
+
+    /// Resolves `ATOM_CACHE_REF index`: the index-th reference of the current distribution
+    /// header, or (without a header) the entry inserted under that index.
+    fn resolve_ref(&self, index: u8) -> Option<&Atom> {
+        if self.header_refs.is_empty() {
+            self.atoms.get(&index)
+        } else {
+            self.header_refs.get(index as usize)
         }
     }
 
@@ -269,6 +287,7 @@ fn parse_versioned_term_with_cache<'a>(
     if tag == DIST_HEADER {
         parse_dist_header_with_cache(input, cache)
     } else {
+        cache.header_refs.clear();
         parse_term_from_tag(input, tag, cache)
     }
 }
@@ -323,7 +342,7 @@ fn parse_term_from_tag<'a>(
         LOCAL_EXT => parse_local_ext(input, cache),
         ATOM_CACHE_REF => {
             let (input, cache_index) = be_u8(input)?;
-            if let Some(atom) = cache.get(cache_index) {
+            if let Some(atom) = cache.resolve_ref(cache_index) {
                 log::debug!(
                     "Found ATOM_CACHE_REF index {} -> '{}'",
                     cache_index,
@@ -562,6 +581,7 @@ fn parse_dist_header_with_cache<'a>(
     cache: &mut AtomCache,
 ) -> NomResult<'a, OwnedTerm> {
     let (input, num_atom_cache_refs) = be_u8(input)?;
+    cache.header_refs.clear();
 
     if num_atom_cache_refs == 0 {
         return parse_term(input, cache);
@@ -591,6 +611,7 @@ fn parse_dist_header_with_cache<'a>(
         };
 
         let is_new_entry = (flag_nibble & 0x08) != 0;
+        let slot = (((flag_nibble & 0x07) as u16) << 8) | internal_segment_index as u16;
 
         if is_new_entry {
             let (new_input, atom_len) = if long_atoms {
@@ -611,8 +632,20 @@ fn parse_dist_header_with_cache<'a>(
                 atom_str,
                 internal_segment_index
             );
-            cache.insert(internal_segment_index, Atom::new(atom_str));
+            let atom = Atom::new(atom_str);
+            cache.insert(internal_segment_index, atom.clone());
+            cache.slots.insert(slot, atom.clone());
+            cache.header_refs.push(atom);
             input = new_input;
+        } else {
+            // a reference to an entry created by an earlier header (or inserted by hand)
+            let atom = cache
+                .slots
+                .get(&slot)
+                .or_else(|| cache.atoms.get(&internal_segment_index))
+                .cloned()
+                .ok_or_else(|| nom::Err::Failure(NomError::new(input, ErrorKind::Tag)))?;
+            cache.header_refs.push(atom);
         }
     }
 
